@@ -272,8 +272,8 @@ CHECKS = [
      BASE_NOTE + "No-mutation is proved for the translated effect IR (trusted: the translator and its classification of NumPy/"
      "builtin operations as fresh-result / view / in-place, static method resolution, caller-supplied callables are the "
      "caller's code); scalar-type and identical-bytes clauses are decided on sampled histories only; eer/auc/roc/threshold_at_metric/bootstrap_* (identity sampler)/"
-     "pointwise_cm/ConfusionMatrix metrics are outside the model's Query type and checked on the Python side only; one open "
-     "finding (bootstrap_ci 'quantile' with an empty 1-d metric raises AxisError) is listed in known_findings.json.",
+     "pointwise_cm/ConfusionMatrix metrics are outside the model's Query type and checked on the Python side only; the defect found "
+     "here (bootstrap_ci 'quantile' with an empty 1-d metric raised AxisError) is repaired (7a65ec2, listed under `fixed`).",
      "Lean 4 proof about a hand-written model + differential correspondence check on call histories + effect model "
      "regenerated from the source by a translator and kernel-checked each run", "DESIGN.md §5 C10"),
  chk("C17",
@@ -313,8 +313,9 @@ CHECKS = [
      "C13.formulaOK (model interval from the OBSERVED replicates with recorded scipy oracle values) and identityOK.",
      BASE_NOTE + "Python attribute resolution (getattr(type(self), name)), keyword forwarding and NumPy RNG determinism are "
      "observed, not proved; utils.bootstrap_ci itself is the subject of C13; a NaN estimate component under bc/bca is outside "
-     "the Lean model (still compared with utils.bootstrap_ci); two open findings (bca raises UFuncTypeError for integer-valued "
-     "metrics; bc/bca raise ValueError when a component is NaN in every replicate) are listed in known_findings.json.",
+     "the Lean model (still compared with utils.bootstrap_ci, up to float noise: 1e-9 of the replicates' scale); the two defects found "
+     "here (bca raised UFuncTypeError for integer-valued metrics; bc/bca raised ValueError when a component is NaN in every "
+     "replicate) are repaired (ae64b94, f1e44e9, listed under `fixed` in known_findings.json).",
      "Lean 4 proof about a hand-written model + differential correspondence check with harness-owned samplers", "DESIGN.md §5 C14"),
  chk("C07",
      "Lean theorems about a line-by-line model of Scores.auc (points one ulp either side of every score via a nextafter oracle, "
@@ -397,8 +398,8 @@ CHECKS = [
      "values and interval frames compared; the C18 clauses evaluated on the implementation's own frames.",
      BASE_NOTE + "The string<->code map per group column (rank among the sorted distinct values) is built and checked by the harness; "
      "pandas indexing is not modelled; scipy.stats.norm ppf/cdf and x**1.5 are oracles (C13 hypotheses); BCa ordering is evaluated "
-     "only on the near side of its pole; group values containing NUL characters are outside the run (numpy/pandas truncate them: "
-     "findings/C18_nul_group_value*.json). One open finding in known_findings.json: by_min + bootstrap (the interval belongs to "
+     "only on the near side of its pole. Two open findings in known_findings.json: group values containing NUL characters (numpy/pandas "
+     "truncate them; witnesses corpus/C18/nul_group_value*.json) and by_min + bootstrap (the interval belongs to "
      "another quantity; signature showbias/by_min/bootstrap/.*; refuted statement C18_ci_by_min_statement); the scripted model carries by_min as coded (minimum over the bootstrap axis), "
      "its corner 'NaN value with finite replicates under bc/bca' is outside the model. The harness keeps two "
      "descriptive signatures (showbias/bootstrap/all-nan-component/raises, showbias/bootstrap/int-metric-bca/raises) for the two "
